@@ -3,6 +3,9 @@
 // end-of-case ledger verdict (C11), value generators.
 #pragma once
 #include "vf.hpp"
+#include <cerrno>
+#include <unordered_map>
+#include "refhash.hpp"
 
 namespace vf {
 
@@ -15,6 +18,8 @@ struct ContBase {
     std::vector<Retained> kept;
     uint64_t obs = 0xcbf29ce484222325ull;
     int copies_outlived = 0;
+    int poison = 0;       // errno value on entry to library calls (drawn per case): results must not depend on it
+    void draw_poison() { static const int pv[] = {0, ENOMEM, ENOENT, EINVAL, ERANGE, ENOBUFS}; poison = pv[s.range(0, 5)]; }
 
     ContBase(Src &s_, Ctx &c_, bool scr, bool ret, const char *hn_) : s(s_), c(c_), scribble(scr), retain(ret), hn(hn_) {}
     ~ContBase() { for (auto &r : kept) if (r.p && vf_ledger_has(r.p)) free(r.p); }
@@ -66,6 +71,24 @@ struct ContBase {
         return v;
     }
 };
+
+// Pairs of distinct short keys whose full 32-bit MurmurHash3 values are equal (found once per
+// process by a birthday search with the harness's own reference implementation): chains and
+// name matching must tell such keys apart by their bytes, not by the hash.
+inline const std::vector<std::pair<std::string, std::string>> &hash_twins() {
+    static std::vector<std::pair<std::string, std::string>> tw;
+    if (tw.empty()) {
+        std::unordered_map<uint32_t, uint32_t> seen;
+        for (uint32_t i = 0; i < 600000 && tw.size() < 4; i++) {
+            std::string k = "tw" + std::to_string(i);
+            uint32_t h = ref::murmur3_32((const uint8_t *)k.data(), k.size(), 0);
+            auto it = seen.find(h);
+            if (it != seen.end()) tw.push_back({"tw" + std::to_string(it->second), k}); else seen[h] = i;
+        }
+        if (tw.empty()) tw.push_back({"tw-none-a", "tw-none-b"});
+    }
+    return tw;
+}
 
 // Runs R once (all modes but C12) or as the C12 metamorphic differential: the same history
 // once with caller buffers left alone and copies freed at once, once with every caller buffer
